@@ -421,4 +421,57 @@ def r10_6(run):
     r7_1(run, only={"derivatives_termal"}, floor=4, residual_only=True)
 
 
-RULES = [("R10.1", r10_1), ("R10.2", r10_2), ("R10.4", r10_4), ("R10.5", r10_5), ("R10.6", r10_6)]
+def r10_7(run):
+    """the heat-exchanging diameter of the cooling law is the outer diameter the user gave: wherever outer_diameter_mm is given,
+    the DO column is that value; the inner diameter may replace it only where it is missing (NaN).  Every store into DO is
+    therefore either independent of the inner diameter (outside a NaN-masked fallback) or restricted to the rows whose DO is NaN"""
+    from ..arrnf import ANF, C, FULL, base_of, contains, key as tkey, show as tshow, walk
+    ix = run.index
+    n = 0
+    inl = {"pandapipes.component_models.component_toolbox.set_entry_check_repeat"}
+    for c in ix.all_classes():
+        m = c.methods.get("create_pit_branch_entries")
+        if not m:
+            continue
+        r = ANF(ix, m, options={"transient": False}, inline=inl, strip=True).run()
+        DO, D = ("k", "idx_branch.DO"), ("k", "idx_branch.D")
+
+        def nullmask(t):
+            return t[0] == "call" and t[1] in (("x", "pandas.isnull"), ("x", "numpy.isnan"), ("x", "pandas.isna")) and len(t[2]) == 1
+
+        def strip_fallback(t):
+            """x{isnull(x) := y}  ->  x   (the value is only replaced where it is missing)"""
+            if not isinstance(t, tuple) or not t:
+                return t
+            if t[0] == "upd" and len(t[2]) == 1 and nullmask(t[2][0]) and tkey(base_of(t[2][0][2][0])) == tkey(base_of(t[1])):
+                return strip_fallback(t[1])
+            return tuple(strip_fallback(x) if isinstance(x, tuple) else x for x in t)
+
+        def inner_dependent(t):
+            return any((x[0] == "attr" and x[2] == "inner_diameter_mm") or (x[0] == "idx" and x[2] and x[2][-1] == D)
+                       or (x[0] == "idx" and x[2] == (C("inner_diameter_mm"),)) for x in walk(t))
+        for s_ in r.stores():
+            if not (len(s_.index) == 2 and s_.index[1] == DO):
+                continue
+            n += 1
+            run.analysed(m)
+            outer_given = any(contains(c_, C("outer_diameter_mm")) and p_ for c_, p_ in s_.cond)
+            where = run.where(m, s_.node)
+            key0 = "DO|%s|%s" % (c.name, tshow(s_.index[0])[:40])
+            if s_.index[0] == FULL:
+                v = strip_fallback(s_.value)
+                uses_outer = any((x[0] == "attr" and x[2] == "outer_diameter_mm") or x == C("outer_diameter_mm") for x in walk(s_.value))
+                ok = (not uses_outer and not outer_given) or (uses_outer and not inner_dependent(v))
+                run.ob(key0 + "|given-outer-diameter-kept", ok,
+                       "where the user gives outer_diameter_mm, DO of %s rows is that value (the inner diameter enters only as "
+                       "fallback for missing entries)" % c.name, where, detail=tshow(s_.value)[:200])
+            else:
+                sel = s_.index[0]
+                ok = nullmask(sel) and sel[2][0][0] == "idx" and sel[2][0][2] == (FULL, DO)
+                run.ob(key0 + "|fallback-only-where-missing", ok,
+                       "a partial store into DO of %s rows is restricted to the rows whose DO is NaN" % c.name, where, detail=tshow(sel)[:120])
+    run.ob("DO-writers-found", n >= 4, "stores into the DO column analysed: %d" % n, "component_models")
+    run.floor(5)
+
+
+RULES = [("R10.1", r10_1), ("R10.2", r10_2), ("R10.4", r10_4), ("R10.5", r10_5), ("R10.6", r10_6), ("R10.7", r10_7)]
